@@ -176,6 +176,10 @@ def build_mut(mr):
         return lena.output.MakeFilename(filename=mr[2], overwrite=True)
     if k == "count":
         return lena.flow.Count(mr[1])
+    if k == "slice":
+        # in a fill branch it works through fill_into and signals LenaStopFill, so Split.run
+        # finalises and drops the branch in the middle of a block
+        return lena.flow.Slice(mr[1])
     raise AssertionError(mr)
 
 
@@ -225,7 +229,7 @@ def build_branch_acc(ar, fr=None):
     return pre + [el]
 
 
-def rand_branch(rng, btype):
+def rand_branch(rng, btype, stops=False):
     # Count is a Run, a FillInto and a FillCompute element at once: inside a fill-compute or
     # fill-request branch it would change the branch type, so it is used in sequences only
     ac = btype == "seq"
@@ -237,8 +241,11 @@ def rand_branch(rng, btype):
                                ["store", 1], ["hist"], ["vmc"]])
         # Count in the pre part of a fill sequence works through fill_into
     if btype == "fr":
-        # Histogram.reset is broken on the pinned tree (C09): never request a reset of it
-        b["fr"] = [rng.randint(1, 3), rng.random() < 0.5 and b["acc"][0] != "hist"]
+        b["fr"] = [rng.randint(1, 3), rng.random() < 0.5]
+    if stops and rng.random() < 0.45:
+        # a branch that stops reading after n values - after the mutators before it have
+        # already changed (their copy of) the values of the current block in place
+        b["pre"].insert(rng.randint(0, len(b["pre"])), ["slice", rng.choice([0, 1, 1, 2, 2, 3])])
     return b
 
 
@@ -319,6 +326,9 @@ def build_acc(er):
         return lena.math.Mean(pass_on_empty=True)
     if k == "vmc":
         return lena.math.VarianceMeanCount(corrected=bool(er[1]), pass_on_empty=True)
+    if k == "storeflat":
+        # only as a component of Vectorize: several results per compute()
+        return lena.flow.StoreFilled(yield_as_a_group=False)
     if k == "vec":
         return lena.math.Vectorize(build_acc(er[1]), dim=er[2])
     if k == "hist":
@@ -381,7 +391,8 @@ def rand_acc(rng):
     if k == "scalar":
         return rng.choice(SCALAR_ACCS)
     if k == "vec":
-        return ["vec", rng.choice([["sum"], ["dsum"], ["mean", None], ["count", "count"]]),
+        return ["vec", rng.choice([["sum"], ["dsum"], ["mean", None], ["count", "count"],
+                                   ["storeflat"], ["storeflat"]]),
                 rng.randint(1, 3)]
     if k == "hist2":
         return ["hist", "2d"]
@@ -392,8 +403,7 @@ def rand_acc(rng):
         return ["graph", rng.random() < 0.5]
     if k == "fr":
         inner = rng.choice(SCALAR_ACCS)
-        # Histogram.reset is broken on the pinned tree (C09): never request a reset of it
-        return ["fr", inner, rng.randint(1, 2), rng.random() < 0.5 and inner[0] != "hist"]
+        return ["fr", inner, rng.randint(1, 2), rng.random() < 0.5]
     clean = [["sum"], ["count", "count"], ["count", "n"], ["mean", None], ["dsum"]]
     return [k, [rng.choice(clean) for _ in range(rng.randint(1, 3))]]
 
@@ -444,7 +454,7 @@ def cases(tier, seed):
                 types = ["fc"] * nbr
             else:
                 types = ["fr"] * nbr
-            branches = [rand_branch(rng, t) for t in types]
+            branches = [rand_branch(rng, t, stops=(kind == "split-run")) for t in types]
             if kind == "zip-requests":
                 # repeated requests of a Zip: judged without any mutator (see run_split)
                 branches = strip_mutators(branches)
@@ -486,7 +496,8 @@ def cases(tier, seed):
 
 def corner_cases():
     """Enumerated table: every accumulator kind once with a fixed history."""
-    accs = list(SCALAR_ACCS) + [["hist", "2d"], ["vec", ["sum"], 2], ["sib", ["sum"], "coord"],
+    accs = list(SCALAR_ACCS) + [["hist", "2d"], ["vec", ["sum"], 2], ["vec", ["storeflat"], 2],
+                                ["sib", ["sum"], "coord"],
                                 ["sib", ["hist", "1d"], ""], ["graph", 1], ["graph", 0],
                                 ["fr", ["sum"], 1, 0], ["fr", ["hist", "1d"], 1, 0],
                                 ["zip", [["sum"], ["count", "count"]]],
@@ -508,6 +519,14 @@ def corner_cases():
     flow = [{"d": [1], "c": {"i": 0, "n": {"k": 0}}}, {"d": [2], "c": {"i": 1}}]
     for bs in (1, 2, 1000, None):
         yield {"k": "split-run", "branches": two + [two[0]], "flow": flow, "bufsize": bs}
+    stopper = {"type": "fc", "pre": [["cset", "a"], ["cdeep"], ["slice", 1]], "post": [],
+               "acc": ["store", 1]}
+    reader = {"type": "fc", "pre": [], "post": [], "acc": ["store", 1]}
+    for bs in (2, 1000):
+        yield {"k": "split-run", "branches": [stopper, reader, two[1]], "flow": flow,
+               "bufsize": bs}
+        yield {"k": "split-run", "branches": [dict(stopper, type="fr", fr=[1, 0]), reader],
+               "flow": flow, "bufsize": bs}
     fcs = [{"type": "fc", "pre": [["cset", "a"], ["dinc"]], "post": [], "acc": ["store", 1]},
            {"type": "fc", "pre": [["cdeep"]], "post": [["cset", "b"]], "acc": ["store", 1]},
            {"type": "fc", "pre": [["dapp"]], "post": [], "acc": ["sum"]}]
